@@ -62,6 +62,11 @@ def run(facts):
             # new_cap >= len by construction at the only call site): judged in every caller with the helper spliced in
             from .inline import contexts
             ctxs = [c for c in contexts(facts, b) if not facts.is_test(c)]
+            # a context rooted in a private function that is itself spliced into a wider context (helper of a helper) is judged there
+            inner_roots = {x for c in ctxs for x in (c._cache.get("inlined_from") or ())}
+            wide = [c for c in ctxs if c.id not in inner_roots]
+            if wide:
+                ctxs = wide
             if ctxs:
                 worst = None
                 tot = 0
